@@ -292,7 +292,7 @@ def check_rows(world, snap, first_row, prop, oracle_prefix, do_implicit=True):
         if c["kind"] == "split":
             dy_ref, scale = ref_split_step(integ, f, c["t0"], c["y0"], h)
             s = integ.tableau_intermediate.shape[0]
-            bound = 64 * s * eps * max(scale, 1e-300)
+            bound = 4 * s * eps * max(scale, 1e-300)
             err = float(np.max(np.abs(dy_ref - c["dState"])))
             world.ratio(oracle_prefix + ".split_step_formula", err / bound)
             if err > bound:
@@ -302,7 +302,8 @@ def check_rows(world, snap, first_row, prop, oracle_prefix, do_implicit=True):
             s = integ.stages
             L = world.problem.lipschitz(**world.system.constants) if hasattr(world.problem, "lipschitz") else 1.0
             amp = (1.0 + abs(_f(h)) * L) ** min(s, 8)
-            bound = 64 * s * eps * max(scale, 1e-300) * amp
+            s_dy, s_arg = ref_rk_step.last_scales
+            bound = 4 * s * eps * max(s_dy + abs(_f(h)) * L * s_arg * amp, 1e-300)
             err = float(np.max(np.abs(dy_ref - c["dState"])))
             world.ratio(oracle_prefix + ".rk_step_formula", err / bound)
             if err > bound:
@@ -432,7 +433,8 @@ class Accuracy(Monitor):
         if any(s["exc"] is not None for s in world.snaps[:-1]):
             return
         integ = world.system.integrator
-        if not getattr(integ, "is_adaptive", False):
+        # (the Richardson wrappers are adaptive, but their `is_adaptive` property returns None)
+        if not (getattr(integ, "is_adaptive", False) or world.scn["system"]["method"].startswith("Rich:")):
             return
         t, y = snap["t"], snap["y"]
         if len(t) < 2:
@@ -630,7 +632,7 @@ class Dense(Monitor):
                 world.violate(P, P + ".array_query", "the array query over the recorded times gives different answers before and after the scalar queries")
         # (e) accuracy between grid points against the closed form
         if self.accuracy and world.problem.has_exact and not world.fired and all(s["exc"] is None for s in world.snaps) and integ is not None:
-            adaptive = bool(getattr(integ, "is_adaptive", False))
+            adaptive = bool(getattr(integ, "is_adaptive", False)) or world.scn["system"]["method"].startswith("Rich:")
             if adaptive:
                 y0 = np.asarray(y[0], dtype=np.float64)
                 end_err = []
